@@ -38,6 +38,7 @@ def run(prog, rep, tier='quick', config='default'):
     r4d(prog, rep)
     r4e(prog, rep)
     r4f(prog, rep)
+    r4g(prog, rep)
 
 
 # ------------------------------------------------------------------------------------------------ R4a
@@ -522,3 +523,45 @@ def r4f(prog, rep):
                    detail='%d Decimal multiplications / divisions in the bookkeeping modules; none uses a pre-divided ratio as an operand' % n)
         else:
             rep.violation('R4f', 'anchor-lost:bookkeeping-arithmetic', detail='anchor lost: only %d Decimal products / quotients found in portfolio::bookkeeping' % n)
+
+
+# ------------------------------------------------------------------------------------------------ R4g
+def r4g(prog, rep):
+    """every file an output mode writes starts empty: opened with File::create, or with OpenOptions carrying truncate(true) /
+    create_new(true) (append(true) for logs).  Otherwise a report that became shorter - a rejected security shows only the
+    prefix before the offending transaction - keeps the tail of the previous run's file: rows after the offending transaction,
+    old totals, the rejection line buried in the middle."""
+    n = 0
+    for f in prog.product_fns():
+        if mir.is_testsupport(f.name):
+            continue
+        for c in f.calls:
+            if re.search(r'^std::fs::File::create(_new)?$', c.callee):
+                n += 1
+                continue
+            if not re.search(r'^std::fs::OpenOptions::open$', c.callee):
+                continue
+            o = mir.provenance(f, c.args[0], follow_all_call_args=True)
+            root = mir.nearest_user_local(f, c.args[0])
+            builder_calls = list(o.calls)
+            if root is not None:
+                # a builder held in a variable and configured statement by statement (`opts.write(true); opts.open(p)`)
+                builder_calls += [x for x in f.calls if x.args and 'OpenOptions' in x.callee and mir.nearest_user_local(f, x.args[0]) == root]
+
+            def flag(name, calls=builder_calls):
+                return any(x.short == name and len(x.args) > 1 and str(x.args[1].get('v')) == 'true' for x in calls)
+            writes = flag('write') or flag('create') or flag('append') or flag('truncate') or flag('create_new')
+            if not writes:
+                continue
+            n += 1
+            k = '%s|output-file-starts-empty' % f.name
+            if flag('truncate') or flag('create_new') or flag('append'):
+                rep.ok('R4g', k, where=c.where(), fn=f.name, detail='OpenOptions with truncate / create_new / append', trivial=True)
+            else:
+                rep.violation('R4g', k, where=c.where(), fn=f.name,
+                              detail='a file is opened for writing without truncation: when the new content is shorter than what is already there '
+                                     '(a security that is now rejected shows only a prefix of its rows), the tail of the old report stays in the file')
+    if n >= 2:
+        rep.ok('R4g', 'output-files-start-empty', fn='(all product crates)', detail='%d write-opens examined (File::create / OpenOptions)' % n, trivial=True)
+    else:
+        rep.violation('R4g', 'anchor-lost:write-opens', detail='anchor lost: only %d sites opening a file for writing found' % n)
